@@ -26,6 +26,7 @@ STUBS = ("tensornetwork numpy backend svd -> exact non-truncating factorisation"
 
 SPECTRA = {
     "sz": np.diag([1.0, -1.0]), "id2": np.diag([1.0, 1.0]), "sx": np.array([[0.0, 1.0], [1.0, 0.0]]),
+    "sz_frac": np.diag([0.25, -0.25]), "d3_frac": np.diag([0.25, 0.125, -0.5]), "d3_frac_rep": np.diag([0.25, 0.25, -0.5]),
     "d3_013": np.diag([0.0, 1.0, 3.0]), "d3_012": np.diag([0.0, 1.0, 2.0]), "d3_m101": np.diag([-1.0, 0.0, 1.0]),
     "d3_001": np.diag([0.0, 0.0, 1.0]), "d3_111": np.diag([1.0, 1.0, 1.0]),
     # non-diagonal with a repeated eigenvalue 0 (eigenvectors: permutation type)
@@ -105,7 +106,9 @@ def cases(tier):
     cs = []
     for m in ("tempo", "pt", "mf"):
         cs += [H1(m, "sz", 3, 1, True), H1(m, "sz", 3, None), H1(m, "id2", 3, 1), H1(m, "d3_001", 2, 1), H1(m, "d3_012", 2, None)]
-    cs += [H1("tempo", "sx", 2, 1), H1("pt", "sx", 2, 1), H1("tempo", "d3_111", 2, 1), H1("pt", "d3_m101", 2, 1)]
+    cs += [H1("tempo", "sx", 2, 1), H1("pt", "sx", 2, 1), H1("tempo", "d3_111", 2, 1), H1("pt", "d3_m101", 2, 1),
+           H1("tempo", "sz_frac", 2, 1), H1("pt", "sz_frac", 2, 1), H1("mf", "sz_frac", 2, None), H1("pt", "d3_frac_rep", 2, 1),
+           H1("tempo", "d3_frac", 2, 1)]
     if tier == "thorough":
         for m in ("tempo", "pt", "mf"):
             cs += [H1(m, "sz", 4, 2, True), H1(m, "id2", 4, None), H1(m, "d3_013", 2, 1), H1(m, "d3_m101", 2, None),
